@@ -189,3 +189,62 @@ class TTGlyphPenBuildComponents(_IntModel, Contract):
         return And(*cs)
 
     ensures = [prop("component-representable-or-decomposed", lambda a, old, r: TTGlyphPenBuildComponents._post(a, r))]
+
+
+@contract
+class TTGlyphPointPenSegmentTypes(Contract):
+    """TTGlyphPointPen.beginPath / addPoint / endPath, for EVERY sequence of up to five point
+    types over {off-curve, line, qcurve, curve} closed as the first, second or third contour
+    (after a triangle; after a quadratic contour that ends in off-curve points): an on-curve
+    point gets flag 1; an off-curve point gets the cubic flag exactly when the next on-curve
+    point of ITS OWN contour, going round cyclically, is a 'curve' point, and 0 otherwise (a
+    contour without on-curve points is quadratic); the flags of the contours closed before
+    are not touched; one end point per contour."""
+    module = "fontTools.pens.ttGlyphPen"
+    qualname = "TTGlyphPointPen.endPath"
+    props = ("C14",)
+    shadow_mode = "real"
+    level = "PF"
+    assumptions = ("token-valued: the family is every type sequence of length 1..5 x three preceding-contour shapes",)
+
+    def args(self, S, variant):
+        return {}
+
+    def call(self, f, a):
+        import itertools
+        import fontTools.pens.ttGlyphPen as mod
+        prefixes = {"first": [], "after-triangle": [["line", "line", "line"]],
+                    "after-quadratic": [["line", "line", "line"], ["qcurve", None, None]]}
+        bad, count = [], 0
+        for n in range(1, 6):
+            for types in itertools.product((None, "line", "qcurve", "curve"), repeat=n):
+                for pname, prefix in prefixes.items():
+                    pen = mod.TTGlyphPointPen(None)
+                    k = 0
+                    for contour in prefix:
+                        pen.beginPath()
+                        for t in contour:
+                            pen.addPoint((k, k), t)
+                            k += 1
+                        pen.endPath()
+                    before = list(pen.types)
+                    pen.beginPath()
+                    for t in types:
+                        pen.addPoint((k, k), t)
+                        k += 1
+                    f(pen)
+                    count += 1
+                    want = []
+                    for i, t in enumerate(types):
+                        if t is not None:
+                            want.append(mod.flagOnCurve)
+                            continue
+                        nxt = next((types[(i + d) % n] for d in range(1, n) if types[(i + d) % n] is not None), None)
+                        want.append(mod.flagCubic if nxt == "curve" else 0)
+                    ends = [len(c) for c in prefix] + [n]
+                    want_ends = [sum(ends[:i + 1]) - 1 for i in range(len(ends))]
+                    if pen.types[:len(before)] != before or pen.types[len(before):] != want or pen.endPts != want_ends:
+                        bad.append((pname, types, pen.types, before + want, pen.endPts))
+        return count, bad[:5]
+
+    ensures = [prop("off-curve-kind-from-the-next-on-curve-of-its-own-contour", lambda a, old, r: r[0] > 4000 and not r[1])]
